@@ -343,8 +343,10 @@ impl Read for SimDisk {
         }
         let len = s.data.len() as u64;
         let n = if pos >= len { 0 } else { limit.min((len - pos) as usize) };
-        let p = pos as usize;
-        buf[..n].copy_from_slice(&s.data[p..p + n]);
+        if n > 0 {
+            let p = pos as usize;
+            buf[..n].copy_from_slice(&s.data[p..p + n]);
+        }
         s.pos += n as u64;
         s.record(Seam::Read, pos, req, n as u64, true);
         Ok(n)
